@@ -14,7 +14,9 @@ RULE = ("(operation group, key, chain id): groups of 1..3 manager contents / fai
         "keys of the four curves (BLS capped: ~1 s per case); random chain ids. Oracle: sign() succeeds; the signature "
         "verifies under an independent verifier over watermark || reference-encoded bytes; binary_payload() == forged || "
         "raw signature (64 or 96 bytes); hash() == b58('o', blake2b-256(payload)); mixed validation passes are "
-        "rejected. Non-trivial: key is not tz1, or the group is a consensus operation. Distinct = distinct case.")
+        "rejected; groups derived from a signed and hashed group (operation(...).sign(), sign() again) are signed and "
+        "hashed over their own bytes. Volume sub-check: one transfer re-signed under thousands of consecutive counters per "
+        "curve so that rare signature shapes (leading zero bytes in r or s) occur. Non-trivial: key is not tz1, or the group is a consensus operation. Distinct = distinct case.")
 
 
 def _ref_forged(g):
@@ -46,10 +48,29 @@ def oracle(case):
         return "mixed-rejected"
     if err is not None:
         raise Violation("sign() raised %r for a %s key on %s" % (err, curve, kinds), case, "sign-raise:" + curve)
+    _check_signed(signed, g, case, key, curve, "")
+    # derived groups: every group spawned from an already signed / hashed one (operation(), sign() again) is signed and
+    # hashed over ITS OWN bytes
+    cur, gg = signed, {"branch": g["branch"], "contents": list(g["contents"])}
+    for k, extra in enumerate(case.get("extra") or []):
+        gg = {"branch": gg["branch"], "contents": gg["contents"] + [extra]}
+        try:
+            cur = cur.operation(dict(extra)).sign()
+        except Exception as e:
+            raise Violation("operation(...).sign() on a signed group raised %r (%s key)" % (e, curve), case, "derived-sign-raise")
+        _check_signed(cur, gg, case, key, curve, "derived group #%d: " % (k + 1))
+    if case.get("extra") is not None:
+        again = signed.sign()
+        _check_signed(again, g, case, key, curve, "re-signed group: ")
+    return "ok"
+
+
+def _check_signed(signed, g, case, key, curve, what):
+    kinds = [c["kind"] for c in g["contents"]]
     forged = _ref_forged(g)
     dec = rc.tz_decode(signed.signature)
     if dec is None or len(dec[1]) != (96 if curve == "BL" else 64):
-        raise Violation("signature %r is not a well-formed %s signature" % (signed.signature, curve), case,
+        raise Violation("%ssignature %r is not a well-formed %s signature" % (what, signed.signature, curve), case,
                         "sig-form:" + curve)
     raw = dec[1]
     wm = (b"\x02" + rc.tz_decode(case["chain_id"])[1]) if kinds[0] == "endorsement" else b"\x03"
@@ -60,23 +81,52 @@ def oracle(case):
             hint = " (it verifies under the other watermark)"
         elif rc.verify_independent(curve, key.public_point, forged, raw):
             hint = " (it verifies without any watermark)"
-        raise Violation("signature does not verify over watermark %s || forged bytes%s; kinds %s" % (wm.hex(), hint, kinds),
-                        case, "bad-signature:%s" % ("consensus" if wm != b"\x03" else "manager"))
+        raise Violation("%ssignature does not verify over watermark %s || forged bytes%s; kinds %s" % (what, wm.hex(), hint, kinds),
+                        case, "bad-signature:%s%s" % ("consensus" if wm != b"\x03" else "manager", ":derived" if what else ""))
     try:
         payload = signed.binary_payload()
         h = signed.hash()
+        h2 = signed.hash()
     except Exception as e:
-        raise Violation("binary_payload/hash raised %r (%s key)" % (e, curve), case, "hash-raise:" + curve)
+        raise Violation("%sbinary_payload/hash raised %r (%s key)" % (what, e, curve), case, "hash-raise:" + curve)
     if payload != forged + raw:
-        raise Violation("binary_payload is not forged || raw signature (len %d vs %d)" % (len(payload), len(forged + raw)),
-                        case, "payload")
+        raise Violation("%sbinary_payload is not forged || raw signature (len %d vs %d)" % (what, len(payload), len(forged + raw)),
+                        case, "payload" + (":derived" if what else ""))
     want = rc.tz_encode(blake2b(forged + raw, digest_size=32).digest(), "o")
-    if h != want:
-        raise Violation("hash %s, expected %s" % (h, want), case, "hash")
-    return "ok"
+    if h != want or h2 != want:
+        raise Violation("%shash %s / %s, expected %s" % (what, h, h2, want), case, "hash" + (":derived" if what else ""))
+
+
+def oracle_bulk(case):
+    """One account, one transfer re-signed under `n` consecutive counters: rare signature shapes (a component with leading
+    zero bytes) need volume. Every signature must verify independently and hash/payload must be recomputable."""
+    from pytezos.context.impl import ExecutionContext
+    from pytezos.crypto.key import Key
+    from pytezos.operation.group import OperationGroup
+    curve = case["curve"]
+    key = Key.from_secret_exponent(bytes.fromhex(case["secret"]), curve.encode())
+    short = 0
+    for i in range(case["start"], case["start"] + case["n"]):
+        content = dict(case["content"], counter=str(i), source=key.public_key_hash())
+        g = {"branch": case["branch"], "contents": [content]}
+        opg = OperationGroup(context=ExecutionContext(key=key), contents=[dict(content)], branch=g["branch"],
+                             chain_id=case["chain_id"], protocol="PtTALLiNtPec7mE7yY4m3k26J8Qukef3E3ehzhfXgFZKGtDdAXu")
+        one = dict(case, start=i, n=1)
+        try:
+            signed = opg.sign()
+        except Exception as e:
+            raise Violation("sign() raised %r at counter %d (%s key)" % (e, i, curve), one, "bulk-sign-raise:" + curve)
+        _check_signed(signed, g, one, key, curve, "counter %d: " % i)
+        raw = rc.tz_decode(signed.signature)[1]
+        if raw[0] == 0 or raw[32] == 0:
+            short += 1
+    return short
 
 
 def replay(case):
+    if case.get("mode") == "bulk":
+        oracle_bulk(case)
+        return
     oracle(case)
 
 
@@ -85,8 +135,11 @@ def cases(draw, curves):
     curve, sec = draw(gen_keys.curve_and_secret(curves))
     mode = draw(st.sampled_from(["manager", "manager", "other", "consensus", "mixed"]))
     nat = gen_ops.small_nat()
+    extra = None
     if mode == "manager":
         contents = [draw(gen_ops.manager_content(nat=nat)) for _ in range(draw(st.integers(1, 3)))]
+        if draw(st.booleans()):
+            extra = [draw(gen_ops.manager_content(nat=nat)) for _ in range(draw(st.integers(1, 2)))]
     elif mode == "other":
         contents = [draw(gen_ops.other_content())]
     elif mode == "consensus":
@@ -99,7 +152,7 @@ def cases(draw, curves):
         if draw(st.booleans()):
             contents.reverse()
     return {"curve": curve, "secret": sec.hex(), "mode": mode, "chain_id": rc.tz_encode(draw(st.binary(min_size=4, max_size=4)), "Net"),
-            "group": {"branch": draw(gen_ops.branch()), "contents": contents}}
+            "group": {"branch": draw(gen_ops.branch()), "contents": contents}, "extra": extra}
 
 
 def _prop(case, stats):
@@ -108,7 +161,25 @@ def _prop(case, stats):
                sample={"curve": case["curve"], "kinds": [c["kind"] for c in case["group"]["contents"]], "result": res})
 
 
+@st.composite
+def bulk_cases(draw, curve, n):
+    _, sec = draw(gen_keys.curve_and_secret([curve]))
+    content = draw(gen_ops.manager_content(nat=gen_ops.small_nat()))
+    return {"mode": "bulk", "curve": curve, "secret": sec.hex(), "content": content, "branch": draw(gen_ops.branch()),
+            "chain_id": rc.tz_encode(draw(st.binary(min_size=4, max_size=4)), "Net"), "start": draw(st.integers(1, 10 ** 6)), "n": n}
+
+
+def _prop_bulk(case, stats):
+    short = oracle_bulk(case)
+    stats.case(case, short > 0, "bulk:%s" % case["curve"], sample={"curve": case["curve"], "kind": case["content"]["kind"],
+                                                                  "start": case["start"], "n": case["n"]})
+    stats.extra["bulk_signatures:" + case["curve"]] += case["n"]
+    stats.extra["bulk_signatures_with_leading_zero_component:" + case["curve"]] += short
+
+
 def run(h):
     sh = 8 if h.quick else 16
+    for curve, n in (("p2", 120), ("sp", 200), ("ed", 200)):
+        h.run_given(lambda c=curve, k=n: bulk_cases(c, k), _prop_bulk, h.n(2, 40), shards=16, name="bulk-" + curve, shrink=False)
     h.run_given(lambda: cases(["ed", "sp", "p2"]), _prop, h.n(60, 1500), shards=sh, name="fast", shrink=False)
     h.run_given(lambda: cases(["BL"]), _prop, h.n(3, 40), shards=sh, name="bls", shrink=False)
